@@ -1095,7 +1095,7 @@ func TestMgrExhaustive(t *testing.T) {
 	}
 	L := 5
 	if vf.Thorough() {
-		L = 7
+		L = 6
 	}
 	si, sk := vf.Shard()
 	A := len(alphabet)
